@@ -31,7 +31,7 @@ type qpeer struct {
 	obs     chan observed
 }
 
-func newQPeer() *qpeer {
+func newQPeer(host string) *qpeer {
 	ia, err := addr.ParseIA("1-ff00:0:110")
 	if err != nil {
 		panic(err)
@@ -50,7 +50,7 @@ func newQPeer() *qpeer {
 			return &tls.Config{Certificates: []tls.Certificate{p.cert}, MinVersion: tls.VersionTLS13, NextProtos: protos}, nil
 		},
 	}
-	local := udp.UDPAddr{IA: ia, Host: &net.UDPAddr{IP: net.ParseIP("127.0.0.1").To4(), Port: 0}}
+	local := udp.UDPAddr{IA: ia, Host: &net.UDPAddr{IP: net.ParseIP(host).To4(), Port: 0}}
 	ln, err := scion.ListenQUIC(context.Background(), local, cfg, nil)
 	if err != nil {
 		panic("listen quic: " + err.Error())
@@ -80,6 +80,9 @@ func (p *qpeer) loop() {
 				return
 			}
 			o.handshake = true
+			if a, ok := conn.RemoteAddr().(udp.UDPAddr); ok && a.Host != nil {
+				o.client = a.Host.IP.String()
+			}
 			cs := conn.ConnectionState().TLS
 			o.proto = cs.NegotiatedProtocol
 			o.c2s, _ = cs.ExportKeyingMaterial(rfcExporterLabel, rfcC2S, 32)
@@ -119,21 +122,23 @@ func (p *qpeer) loop() {
 	}
 }
 
-var theQPeer *qpeer
+var theQPeers = map[string]*qpeer{}
 var quicMode bool
 
-func fNewQUIC() string {
-	if theQPeer == nil {
-		theQPeer = newQPeer()
+func fNewQUIC(host string) string {
+	curHost = loopbackHost(host)
+	p := theQPeers[host]
+	if p == nil {
+		p = newQPeer(host)
+		theQPeers[host] = p
 	}
-	p := theQPeer
 	fetcher = &ntske.Fetcher{}
 	fetcher.Log = nolog
-	fetcher.TLSConfig = tls.Config{InsecureSkipVerify: true, ServerName: "127.0.0.1", MinVersion: tls.VersionTLS13}
+	fetcher.TLSConfig = tls.Config{InsecureSkipVerify: true, ServerName: host, MinVersion: tls.VersionTLS13}
 	fetcher.QUIC.Enabled = true
 	fetcher.QUIC.DaemonAddr = ""
 	fetcher.QUIC.LocalAddr = udp.UDPAddr{IA: p.ia, Host: &net.UDPAddr{IP: net.ParseIP("127.0.0.1").To4()}}
-	fetcher.QUIC.RemoteAddr = udp.UDPAddr{IA: p.ia, Host: &net.UDPAddr{IP: net.ParseIP("127.0.0.1").To4(), Port: p.port}}
+	fetcher.QUIC.RemoteAddr = udp.UDPAddr{IA: p.ia, Host: &net.UDPAddr{IP: net.ParseIP(host).To4(), Port: p.port}}
 	opIndex = 0
 	exKeys = map[int][2][]byte{}
 	quicMode = true
